@@ -11,6 +11,10 @@ CLAIMS = {
             "Coq theorems over a hand-written model of unicode.cpp and the BOM policy, unbounded in text length: UTF-8/UTF-16 round trips for all code points, decoder injectivity, 'never silently altered' for every byte string, write-back in the same encoding and commutation with transcoding for any formatter on code points. The model is tied to the code by running the extracted model and the real codec (hook) on every Unicode scalar value in every encoding plus a malformed-input stream on every run.",
             "Trusted: Coq 8.16.1 kernel (vm_compute in one witness), extraction with ExtrOcamlBasic, ocaml/driver.ml glue, hook UNC_VERIF_CODEC, Python codecs, libc file I/O. The formatter's independence from encoding/BOM is a Section hypothesis (F arbitrary on code points) validated end-to-end by transcoding runs.",
             "DESIGN.md section 6 C09"),
+    "C07": ("proof",
+            "Coq theorems (Properties_C07.v): a model of the tokenizer's 'off' state (parse_ignored/parse_newline/parse_off_newlines) proved lossless for EVERY text - each non-blank line becomes exactly one IGNORED chunk with the line's text, in order, and the scan stops only at the end of the text or in front of a non-empty line holding the enabling text; the output-stage model writes any sequence of IGNORED/NEWLINE/textless chunks raw with exactly nl_count terminators and leaves a writer state independent of the texts; composed under contract K_region into: the non-blank lines of the realised output equal those of the input region, for every text, newline style and writer state. Tie on every run: the extracted Region model vs the hook dump of the real tokenizer from the start of each region; K_region evaluated on the .tok/.fin dumps; Render correspondence; byte oracle between tagged marker lines; opacity by replacing the regions' content (same shape / other shape) and comparing the output outside.",
+            "Trusted: Coq kernel, extraction, driver glue, hooks. The passes between tokenizer and output are NOT modelled: K_region is a hypothesis of the end-to-end theorem, evaluated on every explored run. Entering the off state (marker search, '#pragma asm') and the line holding the enabling text are validated by the byte oracle only. Opacity is proved for the lexer's resume point and the writer state; for the middle passes it is validated by replacement runs. Layout differences outside a region that come from its SHAPE (number of lines, blank first line) under options defined on line counts are recorded as known findings.",
+            "DESIGN.md section 6 C07"),
     "C13": ("proof",
             "Coq theorem C13_all_or_nothing over a model of do_source_file()/backup.cpp as a monadic list of libc-level operations on an abstract file system: for EVERY fault plan (any number of failing operations / full devices) and EVERY crash point (before any operation, inside any write), in every in-place mode, the path holds the complete original or complete formatted bytes, a due backup holds the original whenever the path changed, and exit 0 implies completion. Tie: an LD_PRELOAD interposer numbers the real binary's operations the same way; every crash/fault point of every scenario is replayed on the binary and trace, exit status and every file are compared with the model; the theorem's statement is also checked on the real file system after each run.",
             "Trusted: Coq kernel, extraction, driver glue, the interposer (glibc stdio, /dev/full as ENOSPC), atomic rename(2), no durability/fsync modelling, files < 1 KiB in the compare loop, MD5 abstracted as an injective digest (checked against hashlib on explored runs).",
